@@ -3,6 +3,24 @@
 import json, os, glob, re
 HOME = os.path.dirname(os.path.dirname(os.path.abspath(__file__)))
 NOTES = {
+ 'C02-r2a': 'round 2. A C02 seed that needs a short write on the first appended chunk; caught by the C09 check (fault injection), not by C02',
+ 'C02-r2c': 'round 2. Initially MISSED: truncation was not issued inside open contexts. Array histories now carry a consistency-only truncate inside a context (files, descriptor and a fresh handle must agree; what the truncation should do there is not claimed)',
+ 'C03-r2c': 'round 2. A C03 seed that needs a write failing part-way; caught by C09',
+ 'C05-r2c': 'round 2. A C05 seed that needs an index-row write to fail; caught by C10',
+ 'C08-r2a': 'round 2. Initially MISSED (needs a handle constructed read-only, switched to r+, then first/last metadata key); deterministic histories of that shape were added to C08',
+ 'C08-r2c': 'round 2. Initially MISSED (needs shrink below five subarrays on one handle, then regrowth with other lengths); deterministic shrink-regrow histories were added to C08',
+ 'C09-r2a': 'round 2. Initially MISSED: failing appends were not issued while the array is held open after it grew in the same open period; added',
+ 'C09-r2b': 'round 2. Initially MISSED: no operand longer than 2**20 rows; a huge list with an unconvertible tail was added',
+ 'C09-r2c': 'round 2. Initially MISSED: all big chunks were multiples of the 4096-byte stdio buffer; a regime with 72 016-byte chunks and limits inside the buffered tail was added',
+ 'C12-r2b': 'round 2. Initially MISSED: every case used an r+ handle with default contexts; read-only handles with an explicit open_array(accessmode="r+") block were added',
+ 'C12-r2c': 'round 2. Initially MISSED: no abandoned/closed iterchunks iterator in C12 sequences; added (C19 catches the same root cause)',
+ 'C15-r2c': 'round 2. First evaluation ended in a harness error (the check read the archive the refused call had deleted); now reported as archive-refused-but-changed',
+ 'C16-r2a': 'round 2. Initially MISSED: no foreign file whose name differs from a Darr file name only in case; added',
+ 'C16-r2b': 'round 2. Initially MISSED: no delete through an object that outlived its array; adding it exposed the genuine defect 9ed7a5b in delete_raggedarray',
+ 'C16-r2c': 'round 2. Initially MISSED: creating functions were never given an input that fails after the first item on an occupied path; added',
+ 'C17-r2a': 'round 2. Initially MISSED: crash states were reopened read-only only; they are now reopened with accessmode r and r+',
+ 'C19-r2a': 'round 2. Initially MISSED: schedules used an r+ handle and argument-less contexts only; read-only handles with explicit open_array("r+") were added',
+ 'C19-r2c': 'round 2. Initially MISSED: no failing (handled) access while the map is shared; the badread action was added',
  'C01-b': 'initially MISSED by C01 (mixed-byte-order chunks of one numeric type were generated too rarely); the gen form now draws the swapped byte order explicitly and the grid adds one such program per type/byte order',
  'C02-a': 'initially MISSED by C02 (histories always started from C-contiguous input); start states now carry a memory layout and chunklen',
  'C02-b': 'a C02 seed caught by the C09 check (it only shows after an append that fails part-way through a write, which is C09\'s fault model); C02 itself does not inject I/O faults. The 0-d-operand scenario of the demo was disabled when filed because fix 34027b0 made 0-d operands legal',
